@@ -489,7 +489,10 @@ pub fn run<P: Prop>(p: &P, tier: Tier, seed: u64) -> i32 {
                 std::thread::Builder::new()
                     .stack_size(64 * 1024 * 1024)
                     .spawn_scoped(sc, move || {
-                        let strat = p.strategy(tier);
+                        // VP_CASES_CAP (development aid): bound the generated part, e.g. to exercise
+                        // the enumerated part of a thorough tier alone; never set by ./check
+                        let cap: Option<u32> = std::env::var("VP_CASES_CAP").ok().and_then(|v| v.parse().ok());
+                        let strat = p.strategy(tier).map(|(s, n)| (s, cap.map_or(n, |c| n.min(c))));
                         run_shard(p, tier, seed, shard, my_enum, strat, &known_sigs)
                     })
                     .expect("spawn shard"),
